@@ -48,10 +48,13 @@ def permute_definitions(sdl, rnd):
 
 
 # several members / locations / values / fields removed in ONE edit: the reported list must not depend on the hash seed
-MULTI_OLD = ("type Query { u: U e: E a: Int b: Int c: Int d: Int } type A { x: Int } type B { x: Int } type C { x: Int } type D { x: Int } type F { x: Int } "
-             "union U = A | B | C | D | F enum E { V1 V2 V3 V4 V5 } directive @d on FIELD | QUERY | MUTATION | SUBSCRIPTION | FRAGMENT_SPREAD | INLINE_FRAGMENT")
-MULTI_NEW = ("type Query { u: U e: E a: Int } type A { x: Int } type B { x: Int } type C { x: Int } type D { x: Int } type F { x: Int } "
-             "union U = A enum E { V1 } directive @d on FIELD")
+# several members of every kind of SET the differ walks (fields, union members, enum values, locations, implemented interfaces, arguments, input fields) differ at once
+_IFACES = "interface I1 { x: Int } interface I2 { x: Int } interface I3 { x: Int } interface I4 { x: Int } interface I5 { x: Int } "
+MULTI_OLD = ("type Query { u: U e: E a: Int b: Int c: Int d: Int f(p: Int, q: Int, r: Int, s: Int, i: In): Int } type A implements I1 & I2 & I3 & I4 & I5 { x: Int } type B { x: Int } "
+             "type C { x: Int } type D { x: Int } type F { x: Int } input In { a: Int b: Int c: Int d: Int e: Int } " + _IFACES +
+             "union U = A | B | C | D | F enum E { V1 V2 V3 V4 V5 } directive @d(k: Int, l: Int, m: Int, n: Int) on FIELD | QUERY | MUTATION | SUBSCRIPTION | FRAGMENT_SPREAD | INLINE_FRAGMENT")
+MULTI_NEW = ("type Query { u: U e: E a: Int f(p: Int): Int } type A implements I1 { x: Int } type B { x: Int } type C { x: Int } type D { x: Int } type F { x: Int } "
+             "input In { a: Int } " + _IFACES + "union U = A enum E { V1 } directive @d(k: Int) on FIELD")
 _Q = "type Query { a: Int } "
 EXTRA_PAIRS = [
     # a default removed from a NON-NULL input: the input becomes required
